@@ -24,7 +24,13 @@ import (
 	"orbverif/fw"
 )
 
-const verifDir = "/verif"
+// verifDir is the framework directory (evidence, known findings, scratch); bin/check exports it.
+var verifDir = func() string {
+	if d := os.Getenv("VERIF_DIR"); d != "" {
+		return d
+	}
+	return "/verif"
+}()
 
 func main() {
 	if len(os.Args) < 2 {
